@@ -57,6 +57,11 @@ def run(cx):
     if b:
         cx.expect('EXPR', 'clone_points', cx.retval(b), '(call Polyline::vertices (field line (param self)))', 'clone_points copies the stored vertices', where=b.file)
 
+    # every portion is rebuilt through Curve2::from_points, and every portioning decision reads the flag it computes (rule shared with C01)
+    bf = cx.fn(f'{C}::from_points')
+    if bf:
+        from rules.C01 import curve2_closedness_rules
+        curve2_closedness_rules(cx, bf, bf.aggregates('geom2::curve2::Curve2'))
     # ---------------------------------------------------------------- between_lengths
     b = cx.fn(f'{C}::between_lengths')
     if b:
